@@ -31,59 +31,88 @@ import hplugins as H  # noqa: E402
 CLASSES = [dict(t=1, name="SrcS", ver=0, d=1, uid=1, nv=1), dict(t=1, name="SrcS", ver=0, d=2, uid=8, nv=1),
            dict(t=2, name="MidA", ver=0, d=1, uid=2, nv=2), dict(t=2, name="MidA", ver=0, d=2, uid=3, nv=2),
            dict(t=2, name="MidA", ver=1, d=1, uid=4, nv=4), dict(t=2, name="MidB", ver=0, d=1, uid=5, nv=5),
-           dict(t=3, name="TopT", ver=0, d=1, uid=6, nv=6), dict(t=3, name="TopT", ver=0, d=2, uid=7, nv=6)]
-TYPE = {1: "src", 2: "mid", 3: "top"}
-OPT = {1: "opt_src", 2: "opt_mid", 3: "opt_top", 4: "opt_untracked"}
+           # (no TopT variant with another default: strax refuses two registered plugins - here top and its child kid - that
+           # declare different defaults for the same option)
+           dict(t=3, name="TopT", ver=0, d=1, uid=6, nv=6), dict(t=3, name="TopT", ver=1, d=1, uid=9, nv=7),
+           # child plugins of a TopT class: own child option opt_kid replaces the parent's opt_top
+           dict(t=4, name="KidK", ver=0, d=1, uid=10, nv=8, pname="TopT", pver=0),
+           dict(t=4, name="KidK", ver=0, d=2, uid=11, nv=8, pname="TopT", pver=0),
+           dict(t=4, name="KidK", ver=0, d=1, uid=12, nv=9, pname="TopT", pver=1)]
+TYPE = {1: "src", 2: "mid", 3: "top", 4: "kid"}
+OPT = {1: "opt_src", 2: "opt_mid", 3: "opt_top", 4: "opt_untracked", 5: "opt_shared", 6: "opt_kid"}
+DEP = {1: None, 2: "src", 3: "mid", 4: "mid"}
+NT, NO = 4, 6
 
 
 def classes_tla():
     return "ClassesDef == {" + ", ".join(
-        f'[t |-> {c["t"]}, name |-> "{c["name"]}", ver |-> {c["ver"]}, def |-> {c["d"]}, uid |-> {c["uid"]}, nv |-> {c["nv"]}]'
+        f'[t |-> {c["t"]}, name |-> "{c["name"]}", ver |-> {c["ver"]}, def |-> {c["d"]}, uid |-> {c["uid"]}, nv |-> {c["nv"]}, '
+        f'pname |-> "{c.get("pname", "")}", pver |-> {c.get("pver", 0)}]'
         for c in CLASSES) + "}\n"
 
 
-def make_class(c):
-    t, nv = c["t"], c["nv"]
+def make_class(c, parents=None):
+    """Provenance of a row: (input provenance) * 1000 + NV * 100 + (own option as seen by compute) * 10 + shared option (0 if not taken)."""
+    t = c["t"]
+    if t == 4:
+        # a child plugin: inherits compute (which reads the *parent's* option name) from a TopT class of the given version
+        parent = parents[(c["pname"], c["pver"])]
+        ns = dict(provides=("kid",), data_kind="kid", child_plugin=True, NV=c["nv"], __version__=str(c["ver"]), rechunk_on_save=False)
+        cls = type(c["name"], (parent,), ns)
+        return strax.takes_config(strax.Option(OPT[6], default=c["d"], track=True, child_option=True, parent_option_name=OPT[3]))(cls)
     optname = OPT[t]
     opts = [strax.Option(optname, default=c["d"], track=True)]
+    shared = t in (1, 3)
+    if shared:
+        opts.append(strax.Option(OPT[5], default=1, track=True))
     if t == 2:
         opts.append(strax.Option(OPT[4], default=0, track=False))
     if t == 1:
         def compute(self, chunk_i):
             r = np.zeros(1, H.ROWDT)
-            r["time"], r["endtime"], r["v"] = 1, 2, nv * 10 + self.config[optname]
+            r["time"], r["endtime"], r["v"] = 1, 2, self.NV * 100 + self.config[optname] * 10 + self.config[OPT[5]]
             return self.chunk(start=0, end=10, data=r)
         ns = dict(provides=("src",), depends_on=(), dtype=H.ROW, data_kind="src", compute=compute,
                   is_ready=lambda self, i: i < 1, source_finished=lambda self: True)
     else:
-        dep = TYPE[t - 1]
-
         def compute(self, **kw):
             (x,) = kw.values()
             r = np.zeros(len(x), H.ROWDT)
-            r["time"], r["endtime"], r["v"] = x["time"], x["endtime"], x["v"] * 100 + nv * 10 + self.config[optname]
+            r["time"], r["endtime"] = x["time"], x["endtime"]
+            r["v"] = x["v"] * 1000 + self.NV * 100 + self.config[optname] * 10 + (self.config[OPT[5]] if shared else 0)
             return r
-        ns = dict(provides=(TYPE[t],), depends_on=(dep,), dtype=H.ROW, data_kind=TYPE[t], compute=compute)
+        ns = dict(provides=(TYPE[t],), depends_on=(DEP[t],), dtype=H.ROW, data_kind=TYPE[t], compute=compute)
     ns["__version__"] = str(c["ver"])
     ns["rechunk_on_save"] = False
+    ns["NV"] = c["nv"]
     cls = type(c["name"], (strax.Plugin,), ns)
     return strax.takes_config(*opts)(cls)
+
+
+def make_classes():
+    classes = {c["uid"]: make_class(c) for c in CLASSES if c["t"] != 4}
+    parents = {}
+    for c in CLASSES:
+        if c["t"] == 3:
+            parents.setdefault((c["name"], c["ver"]), classes[c["uid"]])
+    classes.update({c["uid"]: make_class(c, parents) for c in CLASSES if c["t"] == 4})
+    return classes
 
 
 def run_history(hist):
     """Execute a history [(a, t, code)] on real contexts; returns the trace with observations."""
     d = tempfile.mkdtemp(prefix="verif_c02_")
     try:
-        classes = {c["uid"]: make_class(c) for c in CLASSES}
-        first = {t: min(c["uid"] for c in CLASSES if c["t"] == t) for t in (1, 2, 3)}
-        st = strax.Context(storage=[strax.DataDirectory(d)], register=[classes[first[t]] for t in (1, 2, 3)],
+        classes = make_classes()
+        first = {t: min(c["uid"] for c in CLASSES if c["t"] == t) for t in TYPE}
+        st = strax.Context(storage=[strax.DataDirectory(d)], register=[classes[first[t]] for t in TYPE],
                            allow_multiprocess=False)
         kids = {}
         lineages = {}
         trace = []
         fz, fzo = set(), set()
         for (a, t, code) in hist:
-            ev = dict(a=a, t=t, code=code, kid=0, set=[0, 0, 0])
+            ev = dict(a=a, t=t, code=code, kid=0, set=[0] * NO)
             with warnings.catch_warnings():
                 warnings.simplefilter("ignore")
                 if a == "set":
@@ -98,7 +127,7 @@ def run_history(hist):
                 elif a in ("fz", "fzo"):
                     cur = fz if a == "fz" else fzo
                     (cur.add if code else cur.discard)(t)
-                    ev["set"] = [int(k in cur) for k in (1, 2, 3)]
+                    ev["set"] = [int(k in cur) for k in range(1, NO + 1)]
                     if a == "fz":
                         st.set_context_config(dict(fuzzy_for=tuple(TYPE[k] for k in sorted(fz))))
                     else:
@@ -126,15 +155,15 @@ def job(hists):
     return [run_history(h) for h in hists]
 
 
-FUZZY_ACTIONS = [(a, t, on) for a in ("fz", "fzo") for t in (1, 2, 3) for on in (1, 0)]
-ACTIONS = ([("set", o, v) for o in (1, 2, 3, 4) for v in (0, 1, 2)] + [("reg", c["t"], c["uid"]) for c in CLASSES]
-           + [("new", 0, 0)] + [("get", t, 0) for t in (1, 2, 3)] + [("key", t, 0) for t in (1, 2, 3)])
+FUZZY_ACTIONS = ([("fz", t, on) for t in TYPE for on in (1, 0)] + [("fzo", o, on) for o in (1, 2, 3, 5, 6) for on in (1, 0)])
+ACTIONS = ([("set", o, v) for o in OPT for v in (0, 1, 2)] + [("reg", c["t"], c["uid"]) for c in CLASSES]
+           + [("new", 0, 0)] + [("get", t, 0) for t in TYPE] + [("key", t, 0) for t in TYPE])
 
 
 def histories(tier, seed):
     H_ = []
     # exhaustive: every history get(x); action; get(y) and set/reg; get; set/reg; get shapes
-    gets = [("get", t, 0) for t in (2, 3)]
+    gets = [("get", t, 0) for t in (2, 3, 4)]
     changes = [a for a in ACTIONS if a[0] in ("set", "reg", "new")]
     for g1 in gets:
         for ch in changes:
@@ -142,13 +171,13 @@ def histories(tier, seed):
                 H_.append([g1, ch, g2])
     for ch1 in changes[::2]:
         for ch2 in changes[1::3]:
-            H_.append([("get", 3, 0), ch1, ("key", 2, 0), ch2, ("get", 3, 0), ("get", 2, 0)])
+            H_.append([("get", 3, 0), ch1, ("key", 2, 0), ch2, ("get", 3, 0), ("get", 2, 0), ("get", 4, 0)])
     # fuzzy matching: store under one lineage, change a tracked option / class of type c, turn fuzzy matching on for a type or an
     # option, read (accepted iff the lineage differs only in the fuzzy parts), turn it off, read again (nothing was written)
-    fchanges = [a for a in changes if a[0] in ("set", "reg") and a[1] in (1, 2, 3)]
-    for ch in (fchanges if tier != "quick" else fchanges[::2]):
+    fchanges = [a for a in changes if a[0] in ("set", "reg") and not (a[0] == "set" and a[1] == 4)]
+    for ch in (fchanges if tier != "quick" else fchanges[::3]):
         for fa in [f for f in FUZZY_ACTIONS if f[2] == 1]:
-            H_.append([("get", 3, 0), ch, fa, ("get", 3, 0), ("get", 2, 0), (fa[0], fa[1], 0), ("get", 3, 0)])
+            H_.append([("get", 3, 0), ("get", 4, 0), ch, fa, ("get", 3, 0), ("get", 4, 0), ("get", 2, 0), (fa[0], fa[1], 0), ("get", 3, 0)])
     rng = random.Random(seed)
     n = 150 if tier == "quick" else 3000
     for _ in range(n):
@@ -160,6 +189,7 @@ def histories(tier, seed):
                 a = rng.choice(gets)
             h.append(a)
         h.append(("get", 3, 0))
+        h.append(("get", 4, 0))
         H_.append(h)
     return H_
 
@@ -256,9 +286,9 @@ def run(chk):
     V.quiet_threads()
     # design level
     for rep, ml in ((True, 4 if chk.tier == "quick" else 5), (False, 4)):
-        files = {"MC.tla": "---- MODULE MC ----\nEXTENDS Lineage\n" + classes_tla() + "FzDef == {{}, {2}}\nFzoDef == {{}, {1}}\n====\n",
+        files = {"MC.tla": "---- MODULE MC ----\nEXTENDS Lineage\n" + classes_tla() + "FzDef == {{}, {2}}\nFzoDef == {{}, {5}}\n====\n",
                  "MC.cfg": V.cfg_text(dict(Repaired=rep, MaxLen=ml),
-                                      ["NoStaleRead", "KeyIsLineage", "TrackedMoves", "UntrackedMovesNothing", "ClassMoves", "FuzzyAccepts"],
+                                      ["NoStaleRead", "KeyIsLineage", "OptionMoves", "ClassMoves", "FuzzyAccepts"],
                                       overrides=dict(Classes="ClassesDef", FzChoices="FzDef", FzoChoices="FzoDef"),
                                       extra="PROPERTY NothingWrittenUnderFuzzy\n")}
         d = V.stage_spec([], files)
@@ -271,7 +301,7 @@ def run(chk):
             raise V.MachineryError("Lineage.tla as found satisfies every invariant: no teeth")
     # code level
     hs = histories(chk.tier, chk.seed)
-    make_class(CLASSES[0])
+    make_classes()
     res = [x for part in V.pmap(job, V.chunks_of(hs, V.NCPU * 4)) for x in part]
     traces = [r[0] for r in res]
     lineages = {}
